@@ -155,7 +155,9 @@ class SymFloat:
                 v = o.n.concrete('float divisor')
                 o = SymFloat(v, o.den, o.err, o.cr)
             else:
-                raise Unsupported('float division by a symbolic value')
+                if o == 0:
+                    raise ZeroDivisionError('float division by zero')
+                return OpaqueFloat('quotient by a symbolic divisor')
         p, q = o.n, o.den
         if p == 0:
             raise ZeroDivisionError('float division by zero')
@@ -395,6 +397,34 @@ class SymFloat:
 
     def __str__(self):
         raise Unsupported('str() of a symbolic float')
+
+
+class OpaqueFloat:
+    """a float whose value the engine does not model (nonlinear); it may be stored and passed
+    around, any decision or arithmetic on it raises Unsupported"""
+    __sx_sym__ = True
+
+    def __init__(self, why):
+        self.why = why
+
+    def _no(self, *a, **k):
+        raise Unsupported(f'use of an unmodelled float ({self.why})')
+
+    __add__ = __radd__ = __sub__ = __rsub__ = __mul__ = __rmul__ = __truediv__ = __rtruediv__ = _no
+    __lt__ = __le__ = __gt__ = __ge__ = __bool__ = __int__ = __float__ = __floor__ = __ceil__ = __trunc__ = _no
+    __round__ = __floordiv__ = __mod__ = __hash__ = __format__ = _no
+
+    def __eq__(self, o):
+        return o is self
+
+    def __ne__(self, o):
+        return o is not self
+
+    def __repr__(self):
+        return f'OpaqueFloat({self.why})'
+
+    def __sx_eval__(self, m):
+        return '<unmodelled float>'
 
 
 def _content(n):
